@@ -56,12 +56,15 @@ def X1(annot=False):
     B, P = 'a-', 'x-'
     xe1 = {'id': B + 'e1', 'external': True,
            'senses': [{'id': B + 's1', 'external': True,
-                       'relations': [mk.rel(P + 's2', 'also', {'note': 'x'})],
+                       'relations': [mk.rel(P + 's2', 'also', {'note': 'x'}),
+                                     mk.rel(B + 'ss3', 'exemplifies'),      # sense -> base synset
+                                     mk.rel(B + 's2', 'antonym', {'type': 't1'})],   # same as a relation of the base
                        'examples': [{'text': 'x example on a-s1', 'meta': None}],
                        'counts': [{'value': 9, 'meta': None}]},
                       # links the base entry to a base synset the entry has no sense in otherwise
                       mk.sense(P + 's1', B + 'ss3')],
            'forms': [{'writtenForm': 'alphax', 'id': P + 'f9'}]}
+    xe1['senses'].insert(1, {'id': B + 's2', 'external': True})       # stub: relation target
     if annot:
         xe1['lemma'] = {'external': True, 'tags': [{'text': 'xtagtext-lemma', 'category': 'xc'}],
                         'pronunciations': [{'text': 'xprontext-lemma'}]}
@@ -73,7 +76,8 @@ def X1(annot=False):
                                         senses=[mk.sense(P + 's2', P + 'ss1')])],
                       synsets=[{'id': B + 'ss1', 'external': True,
                                 'definitions': [{'text': 'x definition of a-ss1', 'meta': None}],
-                                'relations': [mk.rel(P + 'ss1', 'hyponym', {'type': 'tx'})],
+                                'relations': [mk.rel(P + 'ss1', 'hyponym', {'type': 'tx'}),
+                                              mk.rel(B + 'ss3', 'also')],          # same as a relation of the base
                                 'examples': [{'text': 'x example on a-ss1', 'meta': None}]},
                                {'id': B + 'ss2', 'external': True},
                                {'id': B + 'ss3', 'external': True},
